@@ -68,9 +68,10 @@ func (h *Harness) feed(ev *Event) {
 	if target == nil {
 		target = h.created
 	}
-	if target != nil && (pk.SYN || pk.FIN || pk.RST || pk.Len > 0) {
+	if target != nil && !preEnded && (pk.SYN || pk.FIN || pk.RST || pk.Len > 0) {
 		// (segments without payload and flags are "useless packets" that an
-		// assembler may ignore altogether: they do not count as activity)
+		// assembler may ignore altogether, and so may be segments of a direction
+		// that has already ended: neither counts as activity)
 		target.LastFedAt, target.HasFed = ev.At, true
 	}
 	if target != nil && !preEnded && pk.Len > 0 {
